@@ -1,4 +1,4 @@
 SPECIFICATION Spec
-CONSTANTS MaxOps = 7 MaxNp = 2 MaxNd = 1 Bug = "none" ZoomAuto = TRUE
+CONSTANTS MaxOps = 6 MaxNp = 2 MaxNd = 1 Bug = "none" ZoomAuto = TRUE
 INVARIANTS InvValid InvReads InvSetter InvErr InvSetUp
 CHECK_DEADLOCK FALSE
